@@ -15,6 +15,14 @@ from .tensorflow_wrapper import tf
 breit_wigner_dict = {}
 
 
+def _cast(x, dtype):
+    """``tf.cast`` for an argument that may be a python number: those keep
+    the precision of `dtype` (``tf.cast`` sends them through float32)."""
+    if isinstance(x, (int, float)):
+        return tf.convert_to_tensor(x, dtype=dtype)
+    return tf.cast(x, dtype)
+
+
 def to_complex(i):
     if i.dtype in [tf.float32, tf.float64]:
         return tf.complex(i, tf.zeros_like(i))
@@ -109,8 +117,7 @@ def twoBodyCMmom(m_0, m_1, m_2):
 
 
 def hFun(s, daug2Mass, daug3Mass):
-    _pi = 3.14159265359
-    _pi = tf.cast(_pi, s.dtype)
+    _pi = tf.constant(math.pi, dtype=s.dtype)
 
     sm = daug2Mass + daug3Mass
     sqrt_s = tf.sqrt(s)
@@ -126,8 +133,7 @@ def hFun(s, daug2Mass, daug3Mass):
 
 
 def dh_dsFun(s, daug2Mass, daug3Mass):
-    _pi = 3.14159265359
-    _pi = tf.cast(_pi, s.dtype)
+    _pi = tf.constant(math.pi, dtype=s.dtype)
     k_s = twoBodyCMmom(tf.sqrt(s), daug2Mass, daug3Mass)
 
     ret = hFun(s, daug2Mass, daug3Mass) * (
@@ -138,8 +144,7 @@ def dh_dsFun(s, daug2Mass, daug3Mass):
 
 
 def dFun(s, daug2Mass, daug3Mass):
-    _pi = 3.14159265359
-    _pi = tf.cast(_pi, s.dtype)
+    _pi = tf.constant(math.pi, dtype=s.dtype)
     sm = daug2Mass + daug3Mass
     sm24 = sm * sm / 4.0
     m = tf.sqrt(s)
@@ -174,8 +179,8 @@ def fsFun(s, m2, gam, daug2Mass, daug3Mass):
 # Gounaris-Sakurai model for rho
 def GS(m, m0, g0, q, q0, L, d, c_daug2Mass=0.13957039, c_daug3Mass=0.1349768):
     gamma = Gamma(m, g0, q, q0, L, m0, d)
-    c_daug2Mass = tf.cast(c_daug2Mass, m.dtype)
-    c_daug3Mass = tf.cast(c_daug3Mass, m.dtype)
+    c_daug2Mass = _cast(c_daug2Mass, m.dtype)
+    c_daug3Mass = _cast(c_daug3Mass, m.dtype)
 
     D = 1.0 + dFun(m0 * m0, c_daug2Mass, c_daug3Mass) * g0 / m0
     E = m0 * m0 - m * m + fsFun(m * m, m0 * m0, g0, c_daug2Mass, c_daug3Mass)
